@@ -85,7 +85,25 @@ def handleUnionRows (j : Json) : Except String Verdict := do
                   else s!"overflow/union-rows/first-err={got}/expected={modelFirstErr}/ann={annOk}/arr={arrOk}",
            why := s!"n = {n} rows of variant {v}: first refused row {got}, model {modelFirstErr} ({cls})" }
 
+/-- `len_hint`: a `Serialize` impl that announces `n` elements and sends none, handed to `SerdeArrowSchema::from_value`
+(repo fix 4c15f66: utils/value.rs preallocated `n` elements — "capacity overflow" panic for usize::MAX, allocation abort
+for 2^40).  A length announcement is not data (the serde value model `SVal` of the models has none), so the specification
+is: the outcome equals the outcome of the honest announcement, recorded in the same case. -/
+def handleLenHint (j : Json) : Except String Verdict := do
+  let n ← getNat j "n"
+  let shape ← getStr j "shape"
+  let impl ← getObj j "impl"
+  let honest ← getObj j "honest"
+  let cls := implCls impl
+  let same := toString impl == toString honest
+  let c16 := if cls == "panic" || cls == "hang" then "fail" else "pass"
+  return { agree := same, spec := [("C05", "na"), ("C16", c16)],
+           tags := [s!"len-hint:{shape}:{if n > 1024 then "huge" else "small"}", s!"impl:{cls}"],
+           sig := if same then "" else if cls == "panic" then s!"C16/panic/len-hint-prealloc/{shape}" else s!"overflow/len-hint/{shape}/impl={cls}/honest={implCls honest}",
+           why := s!"{shape} announcing {n} elements and sending none: {cls}, honest announcement {implCls honest}" }
+
 def handle (j : Json) : Except String Verdict := do
+  if (getStr j "kind").toOption == some "len_hint" then return ← handleLenHint j
   if (getStr j "kind").toOption == some "union_rows" then return ← handleUnionRows j
   if (getStr j "kind").toOption == some "view_bytes" then return ← handleViewBytes j
   if (getStr j "kind").toOption == some "deep_term" then return ← handleDeepTerm j
